@@ -625,6 +625,27 @@ def step {w : Nat} (st : St w) (line : String) : Res w :=
         let kb := (xb.filter (fun x => inView.any (fun y => Spec.sameKey x.1 y.1))).map (·.1)
         (st.set r { m with root := bumpSlots m.root (sl ++ sr) d } (bumpKeys e (ka ++ kb) d), "ok", "ok")
     | _, _, _ => bad st
+  | "split_probe" :: r :: kind :: q :: rest =>
+    -- both sides of a split view search for `q`; the model says which side finds what (the two sides are
+    -- disjoint, so at most one of them can reach an entry)
+    match st.get r, P q, parseVSteps w st.masked rest with
+    | some (m, e), some q, some steps =>
+      match runView m.root e steps View.root (some []) 0 with
+      | .error (mm, sm) => (st, mm, sm)
+      | .ok (v, _) =>
+        let sk : VStep w := match kind with
+          | "exact" => .exact q
+          | "find" => .find q
+          | _ => .lpm q
+        let side (sv : Option (View w)) : String :=
+          match sv with
+          | none => "-"
+          | some sv =>
+            match applyVStep m.root sv sk with
+            | some w' => "ok:" ++ (match w'.pfx m.root with | some p => fmtNetP p | none => "?")
+            | none => "err"
+        (st, "L=" ++ side (v.left m.root) ++ ";R=" ++ side (v.right m.root), "*")
+    | _, _, _ => bad st
   | "par_churn" :: r :: n :: rest =>
     -- two threads set / remove the value at the root of their side `n` times and restore it: any
     -- interleaving leaves map and entry counter as they were (C14)
